@@ -4,6 +4,8 @@ use std::{
     ops::Range,
 };
 
+use super::read_exact_to_vec;
+
 pub(super) fn read_record<R>(reader: &mut R, buf: &mut Vec<u8>) -> io::Result<usize>
 where
     R: Read,
@@ -13,8 +15,7 @@ where
         n => n,
     };
 
-    buf.resize(block_size, 0);
-    reader.read_exact(buf)?;
+    read_exact_to_vec(reader, buf, block_size)?;
 
     validate(buf)?;
 
